@@ -137,9 +137,20 @@ func (cr *caseRun) syncShadow() {
 }
 
 // ------------------------------------------------------------------ operations
+// maxMsgSize is the daemon's --max-msg-size in every case; some bodies are sized within
+// the last 30 bytes below it (a backend record is body + 26-byte header, so a queue whose
+// record limit forgets the header refuses exactly these)
+const maxMsgSize = 1024
+
 func (cr *caseRun) body(tag int) []byte {
 	pad := cr.r.Intn(12)
-	return []byte(fmt.Sprintf("%d|%s", tag, strings.Repeat("x", pad)))
+	b := []byte(fmt.Sprintf("%d|%s", tag, strings.Repeat("x", pad)))
+	if cr.r.Chance(12) {
+		n := maxMsgSize - cr.r.Intn(30)
+		b = append(b, []byte(strings.Repeat("y", n-len(b)))...)
+		cr.tag("body-near-max-msg-size")
+	}
+	return b
 }
 
 func (cr *caseRun) markTopic(t int) {
